@@ -178,9 +178,7 @@ mod kani_tcp {
             let d = sdiff(data_nxt, la) + fin;          // rcv_nxt - last_ack
             let adv = ((s.remote_last_win as usize) << s.remote_win_shift) as i64;
             if adv > cap as i64 { return false; }       // a window is never advertised larger than the buffer
-            // nothing accepted beyond the advertised edge (a FIN takes one number; right after the peer's SYN was consumed
-            // RCV.NXT is one past the last ACK sent while nothing is buffered yet)
-            if d < 0 || (d > adv + fin && !(d == 1 && len == 0 && asm_total == 0 && !s.rx_fin_received)) { return false; }
+            if d < 0 || d > adv + fin { return false; } // nothing accepted beyond the advertised edge (a FIN takes one number)
             if sdiff(la, base) + adv > e + fin { return false; }   // advertised edge <= max_edge (a FIN takes one number)
         }
         let off = sdiff(q, base);
@@ -450,7 +448,7 @@ mod kani_tcp {
             for c in clauses { match *c {
                 TxClause::Data => if plen > 0 {
                     if keepalive {
-                        assert!(start == -1 && sdiff(old_nxt_tx, una) == 0, "C05.data: keep-alive byte only at an acknowledged sequence number");
+                        assert!(start == -1, "C05.data: a keep-alive byte sits at SND.UNA-1, an already acknowledged sequence number");
                     } else {
                         assert!(start >= 0 && start + plen <= txlen, "C05.data: payload lies inside the queued data");
                         let o = sdiff(q, repr.seq_number);
@@ -713,7 +711,8 @@ mod kani_tcp {
         let mut s = any_socket(rx, tx);
         kani::assume(matches!(s.state, State::Listen | State::SynSent)); // tag: pre
         kani::assume(s.rx_buffer.is_empty() && s.tx_buffer.is_empty() && s.assembler.is_empty() && !s.rx_fin_received); // tag: pre
-        kani::assume(s.remote_last_ack.is_none() && s.remote_last_win == 0); // tag: pre
+        // no ACK sent yet; the window field of the SYN (if one was sent) is the free receive space, unscaled
+        kani::assume(s.remote_last_ack.is_none() && s.remote_last_win as usize <= s.rx_buffer.window() && (s.remote_last_win as usize == s.rx_buffer.window().min(65535) || s.state == State::Listen || s.remote_last_seq == s.local_seq_no)); // tag: pre
         if s.state == State::Listen {
             s.tuple = None;
             s.listen_endpoint = IpListenEndpoint { addr: if kani::any() { Some(LOCAL) } else { None }, port: 80 };
@@ -757,7 +756,8 @@ mod kani_tcp {
             let nxt = rcv_nxt(&s);
             let pe = any_seq();
             kani::assume(sdiff(pe, nxt) >= 0 && sdiff(pe, nxt) < (1 << 30)); // tag: ghost
-            assert!(j_rx(&mut s, q, b, nxt, pe), "C04.inv: receiver invariant established by the handshake");
+            let me = match adv_edge(&s) { Some(e) if sdiff(e, nxt) > 0 => e, _ => nxt };
+            assert!(j_rx(&mut s, q, b, me, pe), "C04.inv: receiver invariant established by the handshake");
             assert!(j_tx(&s, q, b), "C05.inv: sender invariant established by the handshake");
             assert!(s.remote_mss >= MIN_REMOTE_MSS, "C05.mss: peer MSS is clamped from below");
         }
@@ -770,14 +770,16 @@ mod kani_tcp {
         let mut s = any_socket(&mut rx, &mut tx);
         kani::assume(s.state != State::Listen); // tag: pre  (a listener has no tuple)
         let q = any_seq();
-        if synchronized(s.state) {
-            kani::assume(state_consistent(&s)); // tag: pre
+        if s.state == State::SynSent {
+            kani::assume(s.rx_buffer.is_empty() && s.assembler.is_empty() && s.remote_last_ack.is_none() && !s.rx_fin_received); // tag: pre
+        } else {
+            // CLOSED with a tuple = aborted from some synchronized state, whose buffers are still in place
+            kani::assume(s.state == State::Closed || state_consistent(&s)); // tag: pre
             let (me, pe) = (any_seq(), any_seq());
             kani::assume(j_rx(&mut s, any_seq(), 0, me, pe)); // tag: pre
-        } else {
-            kani::assume(s.rx_buffer.is_empty() && s.assembler.is_empty()); // tag: pre
         }
         kani::assume(j_tx(&s, q, 0)); // tag: pre
+        dump_tx("pre", &s, Instant::from_micros(0));
         let mut cx = Context::kani_ctx(any_instant(), 1500, kani::any(), true);
         let now = cx.now();
         let a = s.state;
@@ -935,12 +937,13 @@ mod kani_tcp {
         let mut cx = Context::kani_ctx(any_instant(), 1500, kani::any(), true);
         kani::assume(unacked(&s)); // tag: pre
         kani::cover!(s.remote_win_len == 0, "zero window state reachable");
+        dump_tx("pre", &s, cx.now());
         assert!(!matches!(s.poll_at(&mut cx), PollAt::Ingress), "C02.deadline: unacknowledged SYN/data/FIN implies a finite poll deadline");
     }
     /// queued data that cannot be sent because the peer's window is closed is covered by the zero-window-probe timer
     fn zwp_inv(s: &Socket) -> bool {
         let in_flight = s.remote_last_seq != s.local_seq_no;
-        !(synchronized(s.state) && s.remote_win_len == 0 && !s.tx_buffer.is_empty() && !in_flight) || !s.timer.is_idle() || s.remote_last_ts.is_none()
+        !(synchronized(s.state) && s.remote_win_len == 0 && !s.tx_buffer.is_empty() && !in_flight) || !s.timer.is_idle()
     }
 
     /// C02: dispatch preserves T' (for any outcome of emit)
@@ -978,7 +981,9 @@ mod kani_tcp {
         let repr = any_repr(&pay[..plen]);
         kani::assume((repr.ack_number == s.local_rx_last_ack) == (part == 0)); // tag: case-split
         let ip = ip_for(&repr);
+        dump_tx("pre", &s, cx.now()); dump_seg(&repr);
         let _ = s.process(&mut cx, &ip, &repr);
+        dump_tx("post", &s, cx.now());
         kani::cover!(unacked(&s), "post-state with unacknowledged data reachable");
         if s.tuple.is_some() {
             assert!(t_prime(&s), "C02.timer: sequence space in flight keeps a running timer after process");
